@@ -272,6 +272,21 @@ def _uses_arg0(f, i):
     return False
 
 
+def rule_wakeall(ctx, rep):
+    """every caller that was merged into this grace period (taken off gp_waiters) is woken on every return path"""
+    for fl in ("memb", "mb", "qsbr"):
+        F, f = _sync(ctx, fl)
+        rep.touch(f)
+        popall = [e.inst for e in pat.accesses(f, None, ("xchg",), glob="gp_waiters") if ir.const_of(f, e.val) is not None]
+        wake = [i for i in f.all_insts() if pat.from_fn(i, "urcu_wake_all_waiters")]
+        pat.require(popall, "%s: pop_all of gp_waiters not found" % fl)
+        if not wake:
+            rep.bad("C02.wakeall", fl, "merged callers are never woken", [popall[0].where()])
+            continue
+        rep.must_pass("C02.wakeall", fl + ".every-return-wakes", f, popall, None, lambda i: i in wake, to_exit=True,
+                      what="after taking the queued callers, every path to return (including the empty-registry shortcut) runs urcu_wake_all_waiters")
+
+
 def rule_locks(ctx, rep):
     for fl in ALL:
         F, f = _sync(ctx, fl)
@@ -413,6 +428,7 @@ RULES = [
     ("C02.wake", rule_wake),
     ("C02.waitloop", rule_waitloop),
     ("C02.node", rule_node),
+    ("C02.wakeall", rule_wakeall),
     ("C02.locks", rule_locks),
     ("C02.self", rule_self),
     ("C02.kind", rule_kind),
